@@ -230,6 +230,18 @@ fn main() {
     case("group_add_optional", false, grp!(gbase), grp!(g_add_optional));
     case("group_optional_to_mandatory", false, grp!(gbase), grp!(g_optional_to_mandatory));
     case("group_member_method_changed", false, grp!(gbase), grp!(g_member_method_changed));
+    // VerifyLayout::check::<T>: the verdict depends on T, also when the same description was accepted for another T before
+    {
+        let desc = iface!(same);
+        let first = VerifyLayout::check::<base::IfaceBox<'static>>(Some(desc));
+        let second = VerifyLayout::check::<arg_type_plain::IfaceBox<'static>>(Some(desc));
+        let third = VerifyLayout::check::<base::IfaceBox<'static>>(Some(desc));
+        println!("CASE check_generic_identical expect=Valid got={:?} {}", first, if first == VerifyLayout::Valid { "ok" } else { "FAIL" });
+        println!("CASE check_generic_other_type_after_valid expect=notValid got={:?} {}", second, if second != VerifyLayout::Valid { "ok" } else { "FAIL" });
+        println!("CASE check_generic_identical_again expect=Valid got={:?} {}", third, if third == VerifyLayout::Valid { "ok" } else { "FAIL" });
+        let none = VerifyLayout::check::<base::IfaceBox<'static>>(None);
+        println!("CASE check_generic_missing expect=Unknown got={:?} {}", none, if none == VerifyLayout::Unknown { "ok" } else { "FAIL" });
+    }
     let l = iface!(base);
     let u = [compare_layouts(None, Some(l)), compare_layouts(Some(l), None), compare_layouts(None, None)];
     println!("CASE missing_description expect=Unknown got={:?} {}", u, if u.iter().all(|v| *v == VerifyLayout::Unknown) { "ok" } else { "FAIL" });
